@@ -14,10 +14,17 @@ type token struct {
 	Tokens []*token
 }
 
-func (t *token) Copy() *token {
+func (t *token) Copy() *token { return t.copyAt(0) }
+
+// copyAt and replaceAt stop where the compiler stops descending too (a long operator chain nests as deep as it is
+// long): the tree could not be compiled anyway, and the Go stack is not unbounded
+func (t *token) copyAt(depth int) *token {
+	if depth > 4*maxDepth {
+		panic(fmt.Sprintf("%v: expression nests too deeply", t.Pos))
+	}
 	toks := make([]*token, len(t.Tokens))
 	for i, tt := range t.Tokens {
-		toks[i] = tt.Copy()
+		toks[i] = tt.copyAt(depth + 1)
 	}
 	return &token{
 		Pos:    t.Pos,
@@ -27,15 +34,20 @@ func (t *token) Copy() *token {
 	}
 }
 
-func (t *token) Replace(sym, newSym, newText string) {
+func (t *token) Replace(sym, newSym, newText string) { t.replaceAt(0, sym, newSym, newText) }
+
+func (t *token) replaceAt(depth int, sym, newSym, newText string) {
 	if t.Symbol == sym {
 		t.Symbol = newSym
 		t.Text = newText
 		t.Tokens = nil
 		return
 	}
+	if depth > 4*maxDepth {
+		panic(fmt.Sprintf("%v: expression nests too deeply", t.Pos))
+	}
 	for _, tt := range t.Tokens {
-		tt.Replace(sym, newSym, newText)
+		tt.replaceAt(depth+1, sym, newSym, newText)
 	}
 }
 
